@@ -245,6 +245,8 @@ fn desc_case(rep: &mut Report, case: u64, rng: &mut Rng, world: &World, s: &str)
             let ki = &world.keys[n % world.keys.len()];
             let s = match kind {
                 "tap" => ki.xonly_hex.clone(),
+                // uncompressed keys are legal wherever no segwit wrapper is involved
+                "legacy" if (n as u64 + case) % 3 == 0 => ki.uncompressed_hex.clone(),
                 _ => ki.compressed_hex.clone(),
             };
             keys.insert(k.clone(), s);
